@@ -579,11 +579,8 @@ Proof.
     match goal with |- G (p_desc ?d ++ _) = true => destruct (G_ln_p_desc d) as [Gd Ld]; apply G_app_ln; [exact Gd| |exact Ld] end.
   - apply G_head; [reflexivity| |]; apply (G_def_tail _ (proj1 (G_fn_sp_dirs dirs)) (proj2 (G_fn_sp_dirs dirs))).
   - pose proof (G_fn_app2 _ _ (G_fn_p_implements impls) (G_fn_app2 _ _ (G_fn_sp_dirs dirs) (G_fn_p_body p_fielddef fields G_p_fielddef))) as [Ga Fa].
-    rewrite <- !app_assoc in *.
-    apply G_headF; [reflexivity| |].
-    + rewrite !app_assoc. rewrite <- app_assoc. rewrite <- (app_assoc (p_implements impls)) in Ga. 
-      pose proof (G_def_tail _ Ga Fa) as [X _]. rewrite <- !app_assoc in X. rewrite <- !app_assoc. exact X.
-    + pose proof (G_def_tail _ Ga Fa) as [_ X]. rewrite <- !app_assoc in X. exact X.
+    pose proof (G_def_tail _ Ga Fa) as [X Y]. rewrite <- !app_assoc in X, Y.
+    apply G_headF; [reflexivity|exact X|exact Y].
   - pose proof (G_fn_app2 _ _ (G_fn_p_implements impls) (G_fn_app2 _ _ (G_fn_sp_dirs dirs) (G_fn_p_body p_fielddef fields G_p_fielddef))) as [Ga Fa].
     pose proof (G_def_tail _ Ga Fa) as [X Y]. rewrite <- !app_assoc in X, Y.
     apply G_head; [reflexivity|exact X|exact Y].
@@ -597,3 +594,73 @@ Proof.
     pose proof (G_def_tail _ Ga Fa) as [X Y]. rewrite <- !app_assoc in X, Y.
     apply G_head; [reflexivity|exact X|exact Y].
 Qed.
+
+Lemma G_ln_p_typeext t : G (p_typeext t) = true /\ ln (p_typeext t) = true.
+Proof.
+  destruct t; cbn [p_typeext]; (split; [|lnt]).
+  - apply G_head; [reflexivity| |]; apply (G_def_tail _ (proj1 (G_fn_sp_dirs dirs)) (proj2 (G_fn_sp_dirs dirs))).
+  - pose proof (G_fn_app2 _ _ (G_fn_p_implements impls) (G_fn_app2 _ _ (G_fn_sp_dirs dirs) (G_fn_p_body p_fielddef fields G_p_fielddef))) as [Ga Fa].
+    pose proof (G_def_tail _ Ga Fa) as [X Y]. rewrite <- !app_assoc in X, Y.
+    apply G_head; [reflexivity|exact X|exact Y].
+  - pose proof (G_fn_app2 _ _ (G_fn_p_implements impls) (G_fn_app2 _ _ (G_fn_sp_dirs dirs) (G_fn_p_body p_fielddef fields G_p_fielddef))) as [Ga Fa].
+    pose proof (G_def_tail _ Ga Fa) as [X Y]. rewrite <- !app_assoc in X, Y.
+    apply G_head; [reflexivity|exact X|exact Y].
+  - pose proof (G_fn_app2 _ _ (G_fn_sp_dirs dirs) (G_fn_p_members members)) as [Ga Fa].
+    pose proof (G_def_tail _ Ga Fa) as [X Y]. rewrite <- !app_assoc in X, Y.
+    apply G_head; [reflexivity|exact X|exact Y].
+  - pose proof (G_fn_app2 _ _ (G_fn_sp_dirs dirs) (G_fn_p_body p_enumval vals G_p_enumval)) as [Ga Fa].
+    pose proof (G_def_tail _ Ga Fa) as [X Y]. rewrite <- !app_assoc in X, Y.
+    apply G_head; [reflexivity|exact X|exact Y].
+  - pose proof (G_fn_app2 _ _ (G_fn_sp_dirs dirs) (G_fn_p_body p_inputval fields G_p_inputval)) as [Ga Fa].
+    pose proof (G_def_tail _ Ga Fa) as [X Y]. rewrite <- !app_assoc in X, Y.
+    apply G_head; [reflexivity|exact X|exact Y].
+Qed.
+
+Lemma G_ln_p_tsdef x : G (p_tsdef x) = true /\ ln (p_tsdef x) = true.
+Proof.
+  destruct x as [d|t|d|e|t]; cbn [p_tsdef].
+  - unfold p_schemadef. split; [|unfold p_rootops; lnt].
+    destruct (G_ln_p_desc (sd_desc d)) as [Gd Ld]. destruct (G_fn_glued_dirs (sd_dirs d)) as [G1 F1].
+    destruct (G_fn_p_rootops (sd_ops d)) as [G2 [F2 _]].
+    apply G_app_ln; [exact Gd| |exact Ld]. apply G_W_l; [reflexivity|]. apply G_app_fn; assumption.
+  - apply G_ln_p_typedef.
+  - unfold p_directivedef. split; [|lnt].
+    destruct (G_ln_p_desc (dd_desc d)) as [Gd Ld].
+    apply G_app_ln; [exact Gd| |exact Ld].
+    assert (Ha : G (p_opt p_argsdef (dd_args d)) = true /\ fn (p_opt p_argsdef (dd_args d)) = true).
+    { destruct (dd_args d) as [l|]; cbn [p_opt]; [|split; reflexivity]. destruct (G_fn_p_argsdef l) as [A [B0 _]]. split; assumption. }
+    assert (Hr : G (p_opt (fun t => W (s " ") :: p_ident t) (dd_repeatable d)) = true
+                 /\ fn (p_opt (fun t => W (s " ") :: p_ident t) (dd_repeatable d)) = true).
+    { destruct (dd_repeatable d); cbn [p_opt]; [|split; reflexivity]. split; [|reflexivity]. apply G_W_l; [reflexivity|apply G_p_ident]. }
+    assert (Hl : G (W (s " on") :: flat_map (fun l => W (s " | ") :: p_ident l) (dd_locs d) ++ [W [LF]]) = true
+                 /\ fn (W (s " on") :: flat_map (fun l => W (s " | ") :: p_ident l) (dd_locs d) ++ [W [LF]]) = true).
+    { split; [|reflexivity].
+      destruct (G_flat_map_fn (fun l => W (s " | ") :: p_ident l) (fun _ => true) (dd_locs d)) as [G1 F1];
+        [intros x _; split; [apply G_W_l; [reflexivity|apply G_p_ident]|reflexivity]|apply forallb_forall; reflexivity|].
+      apply G_W_r; [apply fn_app; [exact F1|reflexivity]|]. apply G_app_fn; [exact G1|reflexivity|reflexivity]. }
+    pose proof (G_fn_app2 _ _ Ha (G_fn_app2 _ _ Hr Hl)) as [X Y].
+    apply G_head; [reflexivity|exact X|exact Y].
+  - unfold p_schemaext. split.
+    + destruct (G_fn_glued_dirs (se_dirs e)) as [G1 F1].
+      apply G_W_l; [reflexivity|]. apply G_app_fn; [exact G1| |].
+      * destruct (se_ops e); [reflexivity|]. apply G_fn_p_rootops.
+      * destruct (se_ops e); [reflexivity|]. apply G_fn_p_rootops.
+    + destruct (se_ops e); unfold p_rootops; lnt.
+  - apply G_ln_p_typeext.
+Qed.
+
+(** ** no chunk boundary of a printed document glues two tokens: for every document, no guard *)
+Theorem G_print_tsdoc d : G (print_tsdoc d) = true.
+Proof. unfold print_tsdoc. apply (G_ln_flat_map_all p_tsdef). exact G_ln_p_tsdef. Qed.
+
+Theorem G_print_tsdoc_ext d : G (print_tsdoc_ext d) = true.
+Proof.
+  unfold print_tsdoc_ext. apply (G_ln_flat_map_all (fun x => p_tsdef x ++ [W [LF]])).
+  intro x. destruct (G_ln_p_tsdef x) as [G1 L1]. split; [apply G_app_ln; [exact G1|reflexivity|exact L1]|lnt].
+Qed.
+
+(** the invariant is not vacuous: it fails as soon as a separator is missing *)
+Example G_detects_missing_separator :
+  G [W (s "type"); WF (s "Q") pos0 None] = false /\ G [W (s "type "); WF (s "Q") pos0 None] = true
+  /\ G [W (s """a"""); W (s """b""")] = false.
+Proof. repeat split. Qed.
